@@ -420,7 +420,14 @@ func (t *fakeRT) RoundTrip(r *http.Request) (*http.Response, error) {
 	}
 	var body []byte
 	if r.Body != nil {
-		body, _ = io.ReadAll(r.Body)
+		var rerr error
+		body, rerr = io.ReadAll(r.Body)
+		if rerr != nil {
+			// a real transport fails the round trip when the request body cannot be read (a closed or consumed body)
+			at.Read = len(body)
+			at.OK = false
+			return nil, fmt.Errorf("reading the request body: %v", rerr)
+		}
 	}
 	at.Read = len(body)
 	at.OK = bytes.Equal(body, t.orig)
@@ -501,9 +508,6 @@ func retries(rep *kit.Report) {
 							}
 							for _, bl := range bodyLens {
 								for _, chunked := range []bool{false, true} {
-									if bl == 0 && chunked {
-										continue
-									}
 									hasMid := false
 									for _, s := range scripts {
 										hasMid = hasMid || s == scFailMid
